@@ -1209,14 +1209,28 @@ func (d *Data) GetFieldCounts(ctx storage.VersionedCtx) (map[string]int64, error
 func (d *Data) GetFieldTimes(ctx storage.VersionedCtx) (map[string]string, error) {
 	mdb, found := d.getMemDBbyVersion(ctx.VersionID())
 	if !found {
-		return nil, fmt.Errorf("unable to get fields because no in-memory db for neuronjson %q, version %d", d.DataName(), ctx.VersionID())
+		// same answer as the in-memory path, from a scan of the stored annotations
+		fieldTimes := make(map[string]string)
+		err := d.processStoreRange(ctx, func(key string, value NeuronJSON) {
+			addFieldTimes(fieldTimes, value)
+		})
+		return fieldTimes, err
 	}
-	mdb.mu.RLock()
+	mdb.mu.Lock()
+	if mdb.ftStale {
+		// An update can lower or remove the newest stamp of a field (delete, replace, null, an
+		// older explicit *_time), which an incremental cache cannot follow: recompute.
+		mdb.fieldTimes = make(map[string]string, len(mdb.fieldTimes))
+		for _, annotation := range mdb.data {
+			addFieldTimes(mdb.fieldTimes, annotation)
+		}
+		mdb.ftStale = false
+	}
 	fieldTimes := make(map[string]string, len(mdb.fieldTimes))
 	for field, timeStr := range mdb.fieldTimes {
 		fieldTimes[field] = timeStr
 	}
-	mdb.mu.RUnlock()
+	mdb.mu.Unlock()
 	return fieldTimes, nil
 }
 
@@ -1476,13 +1490,8 @@ func (d *Data) storeAndUpdate(ctx *datastore.VersionedCtx, keyStr string, newDat
 		}
 		for field := range newData {
 			mdb.fields[field]++
-			if strings.HasSuffix(field, "_time") {
-				rootField := field[:len(field)-5]
-				if timestamp, isString := newData[field].(string); isString {
-					mdb.fieldTimes[rootField] = timestamp
-				}
-			}
 		}
+		mdb.ftStale = true
 		mdb.addBodyID(bodyid)
 		mdb.mu.Unlock()
 	}
@@ -1612,6 +1621,7 @@ func (d *Data) DeleteData(ctx storage.VersionedCtx, keyStr string) error {
 			}
 			delete(mdb.data, bodyid)
 			mdb.deleteBodyID(bodyid)
+			mdb.ftStale = true
 		}
 		mdb.mu.Unlock()
 	}
